@@ -31,7 +31,7 @@ TEnd   == /\ IsEvent("list_end") /\ Done
 TNext == TReset \/ TBegin \/ TOp \/ TSkip \/ TRun \/ TEnd
 TSpec == TInit /\ [][TNext]_tvars
 
-Track == IF l > TLCGet(1) THEN TLCSet(1, l) ELSE TRUE
+Track == IF l > TLCGet(1) THEN TLCSet(1, l) /\ PrintT(<<"L", l>>) ELSE TRUE
 Accepted == \/ TLCGet(1) = Len(Rec) + 1
             \/ PrintT(<<"REJECT", TLCGet(1)>>) /\ FALSE
 \* the invariants of CmdList, guarded for the idle phase before the first reset
